@@ -115,6 +115,8 @@ def plist_leaf(rnd):
 
 def plist_key(rnd):
     r = rnd.random()
+    if r < 0.05:
+        return ""            # the empty string is a legal dictionary key
     if r < 0.6:
         return rnd.choice(["com.example.key", "public.thing", "a", "B", "key with space", "k1", "k2", "k3", "z.last"])
     if r < 0.8:
@@ -162,6 +164,8 @@ def plist_classes(v, out=None, depth=0):
         out.add("date")
     elif isinstance(v, dict):
         out.add("dict-empty" if not v else "dict")
+        if "" in v:
+            out.add("key-empty")
         for x in v.values():
             plist_classes(x, out, depth + 1)
     elif isinstance(v, (list, tuple)):
@@ -178,6 +182,8 @@ def lib_dict(rnd, small=False):
     for _ in range(rnd.choice([1, 2, 3] if small else [1, 2, 4, 7])):
         d[rnd.choice(["com.example.lib", "public.skipExportGlyphs", "org.test.data", "k", "com.x.nested", "ünï.key"])
           + str(rnd.randrange(4))] = plist_tree(rnd, 1, 3 if small else 4)
+    if rnd.random() < 0.12:
+        d[""] = plist_tree(rnd, 1, 2)      # empty-string key at the top level of a lib
     return d
 
 
